@@ -6,7 +6,6 @@ import (
 	"os"
 	"strings"
 
-	"github.com/nspcc-dev/neo-go/pkg/core/native/noderoles"
 	"github.com/nspcc-dev/neo-go/pkg/core/state"
 	"github.com/nspcc-dev/neo-go/pkg/core/transaction"
 	"github.com/nspcc-dev/neo-go/pkg/crypto/keys"
@@ -33,9 +32,52 @@ type txSpec struct {
 	// attr: an ordinary sender (signers[0]) with the NotaryAssisted attribute and the Notary contract as
 	// an additional signer (the shape of a completed main transaction of the notary service)
 	attr bool
+	// scope of a signer (absent = Global); ordinary transactions only
+	scope map[util.Uint160]sigScope
 	// exhaust: 1 = SystemFee chosen so that SystemFee+NetworkFee equals the payer's deposit exactly,
 	// 2 = one datoshi less than the deposit, 0 = sysFee as given
 	exhaust int
+}
+
+type sigScope struct {
+	scopes  transaction.WitnessScope
+	allowed []util.Uint160
+}
+
+// newTxScoped builds and signs a transaction whose signers carry the given scopes.
+func (w *world) newTxScoped(script []byte, sysFee int64, signers []neotest.Signer, scope map[util.Uint160]sigScope) *transaction.Transaction {
+	tx := transaction.New(script, 0)
+	w.nonce++
+	tx.Nonce = w.nonce
+	tx.ValidUntilBlock = w.bc.BlockHeight() + 1
+	for _, sg := range signers {
+		sc, ok := scope[sg.ScriptHash()]
+		if !ok {
+			sc = sigScope{scopes: transaction.Global}
+		}
+		tx.Signers = append(tx.Signers, transaction.Signer{Account: sg.ScriptHash(), Scopes: sc.scopes, AllowedContracts: sc.allowed})
+	}
+	neotest.AddNetworkFee(w.t, w.bc, tx, signers...)
+	tx.SystemFee = sysFee
+	for _, sg := range signers {
+		if err := sg.SignTx(w.bc.GetConfig().Magic, tx); err != nil {
+			panic(err)
+		}
+	}
+	return tx
+}
+
+// signersField renders the signers of a transaction for the model: acc:scopes[:allowed contract]*
+func (w *world) signersField(tx *transaction.Transaction) string {
+	var es []string
+	for _, sg := range tx.Signers {
+		e := fmt.Sprintf("%d:%d", w.aid(sg.Account), byte(sg.Scopes))
+		for _, h := range sg.AllowedContracts {
+			e += fmt.Sprintf(":%d", w.aid(h))
+		}
+		es = append(es, e)
+	}
+	return strings.Join(es, ",")
 }
 
 func (w *world) committeeHash() util.Uint160 { return w.committeeSigner().ScriptHash() }
@@ -74,7 +116,7 @@ func (w *world) buildTx(s *txSpec) *transaction.Transaction {
 		}
 		sg[i] = x
 	}
-	return w.newTx(script, s.sysFee, sg...)
+	return w.newTxScoped(script, s.sysFee, sg, s.scope)
 }
 
 // buildNotaryTx: Signers = [Notary (None), payer (Global)], NotaryAssisted attribute, witness of the
@@ -240,19 +282,25 @@ func (w *world) runBlock(o *hx.Out, k int, specs []*txSpec) bool {
 	post := w.dump()
 	idx := b.Index
 	o.Count("blocks")
-	o.Line(fmt.Sprintf("block %d", idx), "ok")
+	aers, err := w.bc.GetAppExecResults(b.Hash(), trigger.OnPersist)
+	blockObs := "ok"
+	if err == nil && len(aers) == 1 {
+		for _, ev := range aers[0].Events {
+			if ev.Name == "CommitteeChanged" && ev.ScriptHash == w.neoH {
+				blockObs = "ok cc"
+				o.Count("event:CommitteeChanged")
+			}
+		}
+	}
+	o.Line(fmt.Sprintf("block %d", idx), blockObs)
 
 	bad := func(s string) { o.Fail("event-shape", k, "block %d: %s", idx, s) }
 	var all []xfer
-	// OnPersist
-	vals, _ := w.bc.GetNextBlockValidators()
-	primaryAcc := vals[primary].GetScriptHash()
-	nots, _, _ := w.bc.GetDesignatedByRole(noderoles.P2PNotary)
+	// OnPersist: the model finds the primary's account itself (validators of the running epoch)
 	// designation takes effect from the block after the one that stored it
 	effNot := w.notariesAt(idx)
-	_ = nots
 	var sb strings.Builder
-	fmt.Fprintf(&sb, "onpersist %d %s %d", w.aid(primaryAcc), effNot, len(txs))
+	fmt.Fprintf(&sb, "onpersist %d %s %d", primary, effNot, len(txs))
 	for i, tx := range txs {
 		nk, payer := "-", "-"
 		if specs[i].notary {
@@ -264,7 +312,6 @@ func (w *world) runBlock(o *hx.Out, k int, specs []*txSpec) bool {
 		fmt.Fprintf(&sb, " %d %d %d %s %s", w.aid(tx.Sender()), tx.SystemFee, tx.NetworkFee, nk, payer)
 	}
 	o.Line(sb.String(), "ok")
-	aers, err := w.bc.GetAppExecResults(b.Hash(), trigger.OnPersist)
 	if err != nil || len(aers) != 1 {
 		o.Fail("aer-missing", k, "block %d OnPersist", idx)
 	} else {
@@ -276,20 +323,13 @@ func (w *world) runBlock(o *hx.Out, k int, specs []*txSpec) bool {
 	// transactions
 	for i, tx := range txs {
 		s := specs[i]
-		o.Line(fmt.Sprintf("tx %d", w.aid(tx.Sender())), "ok")
-		signed := map[util.Uint160]bool{}
-		if s.notary {
-			signed[tx.Signers[1].Account] = true
-		} else if s.attr {
-			signed[tx.Signers[0].Account] = true
-		} else {
-			for _, sg := range tx.Signers {
-				signed[sg.Account] = true
-			}
+		o.Line(fmt.Sprintf("tx %d %s", w.aid(tx.Sender()), w.signersField(tx)), "ok")
+		for _, sg := range tx.Signers {
+			o.Count(fmt.Sprintf("signer-scope:%d", byte(sg.Scopes)))
 		}
 		var lines []string
 		for _, c := range s.calls {
-			w.opLines(c, signed, util.Uint160{}, &lines)
+			w.opLines(c, util.Uint160{}, &lines)
 		}
 		for _, l := range lines {
 			o.Line(l, ".")
@@ -325,12 +365,8 @@ func (w *world) runBlock(o *hx.Out, k int, specs []*txSpec) bool {
 		}
 		o.Line(fmt.Sprintf("endtx %d", b01(s.abort)), obs)
 	}
-	// PostPersist
-	var ms []string
-	for _, c := range post.committee {
-		ms = append(ms, fmt.Sprintf("%d:%d:%s", w.pid(c.pub), w.aid(c.pub.GetScriptHash()), c.votes))
-	}
-	o.Line("postpersist "+strings.Join(ms, ","), "ok")
+	// PostPersist: the model uses its own committee
+	o.Line("postpersist", "ok")
 	aers, err = w.bc.GetAppExecResults(b.Hash(), trigger.PostPersist)
 	if err != nil || len(aers) != 1 {
 		o.Fail("aer-missing", k, "block %d PostPersist", idx)
@@ -340,7 +376,7 @@ func (w *world) runBlock(o *hx.Out, k int, specs []*txSpec) bool {
 		}
 		all = append(all, w.transfers(aers[0].Events, bad)...)
 	}
-	o.Line("endblock", w.line(post))
+	o.Line("endblock", w.line(post)+w.govLine(post, all))
 	w.coverage(o, pre, post, all)
 	w.oracle(o, k, idx, pre, post, all)
 	return true
